@@ -269,6 +269,12 @@ class Check:
         if len(self.cov["samples"]) < limit:
             self.cov["samples"].append(s)
 
+    def stage(self, name):
+        now = time.time()
+        last = getattr(self, "_stage_t", self.t0)
+        self.cov.setdefault("stage_seconds", {})[name] = round(now - last, 1)
+        self._stage_t = now
+
     def note(self, s):
         self.notes.append(s)
         log("  note:", s)
